@@ -543,7 +543,7 @@ def restart_and_probe(rng, drv, profile, tid, n0):
 
 
 REGIME_CFG = {
-    "iso": dict(profile="apps", alt_profile="script2", cfgs=[dict(allow=True, usage=True, blur=0), dict(allow=True, usage=False, blur=0)]),
+    "iso": dict(profile="apps", alt_profile="script2", third_profile="allociso", cfgs=[dict(allow=True, usage=True, blur=0), dict(allow=True, usage=False, blur=0)]),
     "restart": dict(profile="mailbox", alt_profile="script",
                     over=dict(w_stop=2.0, w_crash=0, w_advance=4, steps=45, sides=["s1", "s2", "s3"]),
                     cfgs=[dict(allow=True, usage=True, blur=0), dict(allow=True, usage=False, blur=0)]),
@@ -566,6 +566,8 @@ def one_pair(regime, seedstr, pid):
     pname = rc["profile"]
     if rc.get("alt_profile") and rng.random() < 0.5:
         pname = rc["alt_profile"]
+    if rc.get("third_profile") and rng.random() < 0.25:
+        pname = rc["third_profile"]
     prof = dict(plans.PROFILES[pname])
     prof.update(rc.get("over", {}))
     if regime == "restart":
@@ -574,6 +576,10 @@ def one_pair(regime, seedstr, pid):
                     steps=rng.choice([12, 20, 30, 45]))
     conns = tuple(prof.get("conns", ("c1", "c2", "c3")))
     prof["conns"] = conns
+    if "prefill_spec" in prof:
+        from .gen import make_prefill
+        prof["prefill"] = make_prefill(rng, prof)
+        prof["skip_prefill_lines"] = False
     cfgd = dict(rng.choice(rc["cfgs"]))
     table, H = history(rng, prof, cfgd, conns, pid)
     info = dict(regime=regime, seed=seedstr, cfg=cfgd)
